@@ -10,6 +10,7 @@ import Hy.Drv.Frag
 import Hy.Drv.Salamander
 import Hy.Drv.Acl
 import Hy.Drv.Punch
+import Hy.Drv.Stats
 
 open Hy.Drv
 
@@ -41,4 +42,5 @@ def main (args : List String) : IO UInt32 := do
   | ["acl"] => loopState stdin stdout Acl.step Acl.init; return 0
   | ["punchcodec"] => loopPure stdin stdout Punch.stepCodec; return 0
   | ["punchconn"] => loopState stdin stdout Punch.stepConn Punch.initConn; return 0
+  | ["stats"] => loopState stdin stdout Stats.step Stats.init; return 0
   | _ => IO.eprintln "usage: hydrv <component>"; return 2
